@@ -38,6 +38,8 @@ class AInt:
     def __init__(self, v=None, bits=None, rng=None):
         self.v = v
         self.bits = None if bits is None else list(bits)
+        if v is None and self.bits is not None and all(isinstance(b, int) and not isinstance(b, bool) and b in (0, 1) for b in self.bits):
+            self.v = sum(b << k for k, b in enumerate(self.bits))          # every bit known: a number
         self.rng = rng          # (lo, hi) when only a range is known (e.g. int.bit_length() of an abstract value)
     def __repr__(self):
         return f"AInt({self.v if self.v is not None else B.show_vec(self.bits) if self.bits is not None else '?'})"
@@ -1176,6 +1178,10 @@ class Interp:
                 return not self.truth(v, e)
             if isinstance(e.op, ast.USub) and isinstance(v, AInt) and v.v is not None:
                 return AInt(-v.v)
+            if isinstance(e.op, ast.Invert) and isinstance(v, AInt) and v.v is not None and isinstance(v.v, int):
+                return AInt(~v.v)
+            if isinstance(e.op, ast.UAdd) and isinstance(v, AInt):
+                return v
             return AOpaque('unary')
         if isinstance(e, ast.BoolOp):
             if isinstance(e.op, ast.And):
@@ -1546,6 +1552,12 @@ class Interp:
                     return AInt(f(a.v, b.v))
                 except (ZeroDivisionError, ValueError, TypeError) as ex:
                     raise Unknown(f"arithmetic fails: {ex}")
+            # x & c with a negative constant c = ~m: the bits of m are cleared, every other bit of the (non-negative, finitely many bits) x kept
+            if isinstance(op, ast.BitAnd):
+                for x_, c_ in ((a, b), (b, a)):
+                    if c_.v is not None and isinstance(c_.v, int) and c_.v < 0 and x_.v is None and x_.vec() is not None:
+                        m_ = ~c_.v
+                        return AInt(None, B.trim([0 if (m_ >> k_) & 1 else bit_ for k_, bit_ in enumerate(x_.vec())]))
             va, vb = a.vec(), b.vec()
             if va is None or vb is None:
                 return AInt(None, None)
